@@ -2,6 +2,7 @@
 from mirq import ty_str
 from mirq.origin import Origins, show, walk, decisions, lit_truth, dominating_guards
 from mirq.pat import match, find, strip_refs
+from mirq.canon import Canon
 from rules.c14 import field_index
 
 DT = "embedded_graphics_core::draw_target::DrawTarget"
@@ -36,11 +37,12 @@ def method(prog, adt, name, trait=DT):
 def run(ctx, rep):
     prog = ctx.program("default")
     rep.configs.append(getattr(ctx, "alias", "default"))
-    clipped(prog, rep)
-    cropped(prog, rep)
-    translated(prog, rep)
-    converted(prog, rep)
-    defaults(prog, rep)
+    cn = Canon(prog)
+    clipped(prog, rep, cn)
+    cropped(prog, rep, cn)
+    translated(prog, rep, cn)
+    converted(prog, rep, cn)
+    defaults(prog, rep, cn)
     zip_rule_everywhere(prog, rep)
     ext_constructors(prog, rep)
 
@@ -49,244 +51,216 @@ def selff(prog, adt, name):
     return ("field", P(1, "self"), field_index(prog, NS + adt, name))
 
 
-def clipped(prog, rep):
+ARG = ("arg", 1)
+INTO_ITER = lambda x: {x, ("call", "*IntoIterator::into_iter", "_", (x,))}
+
+
+def isect_of(t, a_ok, b_ok):
+    """t is intersection(x, y) with one operand accepted by a_ok and the other by b_ok (either order)"""
+    m = match(t, ("call", "*Rectangle::intersection", "_", ("?x", "?y")))
+    return m is not None and ((a_ok(m["?x"]) and b_ok(m["?y"])) or (a_ok(m["?y"]) and b_ok(m["?x"])))
+
+
+def shows(site):
+    return [show(x, maxd=5) for x in site.args[1:]] if site else "?"
+
+
+def clipped(prog, rep, cn):
     A = "clipped::Clipped"
     clip = selff(prog, A, "clip_area")
     parent = selff(prog, A, "parent")
     # bounding_box() == clip_area
     bb = prog.method1(NS + A, "bounding_box", "embedded_graphics_core::geometry::Dimensions")
-    ro = strip_refs(Origins(bb).return_origin())
+    ro = cn.ret(bb)
     rep.check(ro == clip, "R03.1", "Clipped::bounding_box", "Clipped::bounding_box must return the stored clip area; found %s" % show(ro), at=bb.span, fn=bb.path)
     sane = lambda t: t == clip or match(t, ("call", "*::bounding_box", "_", (P(1, "self"),))) is not None
+    is_area = lambda t: t == P(2, "area")
 
     # draw_iter: parent.draw_iter(filter(into_iter(pixels), |Pixel(p,_)| clip_area.contains(*p)))
     f = method(prog, A, "draw_iter")
-    ss = sites(f, "draw_iter")
-    ok = len(ss) == 1 and ss[0][1][0] == parent
+    ss = cn.sites(f, "draw_iter")
+    ok = len(ss) == 1 and ss[0].args[0] == parent
     why = "exactly one forward to parent.draw_iter expected"
     if ok:
-        arg = ss[0][1][1]
-        m = match(arg, ("call", "*Iterator::filter", "_", (("call", "*IntoIterator::into_iter", "_", (P(2, "pixels"),)), "?clo")))
+        arg = ss[0].args[1]
+        m = match(arg, ("call", "*Iterator::filter", "_", (INTO_ITER(P(2, "pixels")), ("lam", "?body"))))
         ok = m is not None
         why = "the pixel stream must be filter(pixels.into_iter(), ..); found %s" % show(arg, maxd=5)
         if ok:
-            c, cr, caps = closure_ret(prog, m["?clo"])
-            # closure(self_env, &Pixel) -> contains(clip_area, pixel.0)
-            mm = match(cr, ("call", "*Rectangle::contains", "_", ("?area", ("field", P(2, None), 0)))) if cr else None
-            if mm is None and cr:
-                mm = match(cr, ("call", "*::contains", "_", ("?area", ("field", ("param", 2, "_"), 0))))
-            if mm is None and cr is not None:
-                # param name may be absent (pattern argument)
-                for n, b in find(cr, ("call", "*::contains", "_", ("?area", "?pt"))):
-                    if n == cr and b["?pt"][0] == "field" and b["?pt"][1][0] == "param" and b["?pt"][1][1] == 2 and b["?pt"][2] == 0:
-                        mm = b
+            mm = match(m["?body"], ("call", "*::contains", "_", ("?area", ("field", ARG, 0))))
             ok = mm is not None
-            why = "the filter must keep exactly the pixels whose own point satisfies clip_area.contains(p); closure returns %s" % (show(cr) if cr else "?")
+            why = "the filter must keep exactly the pixels whose own point satisfies clip_area.contains(p); the predicate is %s" % show(m["?body"])
             if ok:
-                area = mm["?area"]
-                # upvar self -> clip_area
-                a_ok = match(area, ("field", ("upvar", "_", "self"), field_index(prog, NS + A, "clip_area"))) is not None or \
-                    (area[0] == "upvar" and area[2] == "self__clip_area" and caps and area[1] < len(caps) and caps[area[1]] == clip)
-                ok = a_ok
-                why = "the filter must test against self.clip_area; tests against %s" % show(area)
+                ok = sane(mm["?area"])
+                why = "the filter must test against self.clip_area; tests against %s" % show(mm["?area"])
     rep.check(ok, "R03.1", "Clipped::draw_iter", why, at=f.span, fn=f.path)
 
     # fill_solid: parent.fill_solid(intersection(area, clip), color)
     f = method(prog, A, "fill_solid")
-    ss = sites(f, "fill_solid")
-    ok = len(ss) == 1 and ss[0][1][0] == parent
+    ss = cn.sites(f, "fill_solid")
+    ok = len(ss) == 1 and ss[0].args[0] == parent
     why = "exactly one forward to parent.fill_solid expected"
     if ok:
-        a = ss[0][1]
-        m = match(a[1], ("call", "*Rectangle::intersection", "_", ("?x", "?y")))
-        ok = m is not None and ((m["?x"] == P(2, "area") and sane(m["?y"])) or (m["?y"] == P(2, "area") and sane(m["?x"]))) and a[2] == P(3, "color")
+        a = ss[0].args
+        ok = isect_of(a[1], is_area, sane) and a[2] == P(3, "color")
         why = "fill_solid must forward area.intersection(clip_area) and the colour unchanged; forwards %s / %s" % (show(a[1]), show(a[2]))
     rep.check(ok, "R03.1", "Clipped::fill_solid", why, at=f.span, fn=f.path)
 
     # fill_contiguous: two sinks
     f = method(prog, A, "fill_contiguous")
-    org = Origins(f)
-    ss = sites(f, "fill_contiguous", org)
-    inter = {("call", "*Rectangle::intersection", "_", ("?x", "?y"))}
+    ss = cn.sites(f, "fill_contiguous")
     probs = []
     if len(ss) != 2:
         probs.append("expected the pass-through and the re-cut forward, found %d calls" % len(ss))
     kinds = set()
-    for bi, a, t in ss:
+    RECT = "embedded_graphics_core::primitives::rectangle::Rectangle"
+    for s in ss:
+        a = s.args
         if a[0] != parent:
             probs.append("forward not on self.parent")
-        guards = [(strip_refs(d), l) for d, l in dominating_guards(f, org, bi)]
         if a[1] == P(2, "area") and a[2] == P(3, "colors"):
             # must be guarded by intersection == area
-            g_ok = False
-            for d, lit in guards:
-                m = match(d, ("call", "*PartialEq>::eq", "_", ("?l", "?r")))
-                if m is None:
-                    m = match(d, ("call", "*::eq", "_", ("?l", "?r")))
-                if m is not None and lit_truth(lit) is True:
-                    sides = [m["?l"], m["?r"]]
-                    if P(2, "area") in sides:
-                        o = [s for s in sides if s != P(2, "area")][0]
-                        mi = match(o, ("call", "*Rectangle::intersection", "_", ("?x", "?y")))
-                        if mi is not None and ((sane(mi["?x"]) and mi["?y"] == P(2, "area")) or (sane(mi["?y"]) and mi["?x"] == P(2, "area"))):
-                            g_ok = True
+            g_ok = any(x[0] == "eq" and ((is_area(x[1]) and isect_of(x[2], is_area, sane)) or (is_area(x[2]) and isect_of(x[1], is_area, sane))) for x in s.facts)
             if not g_ok:
                 probs.append("the unmodified area may only be forwarded when it equals its intersection with the clip area")
             kinds.add("pass")
         else:
-            mi = match(a[1], ("call", "*Rectangle::intersection", "_", ("?x", "?y")))
-            if mi is None or not ((sane(mi["?x"]) and mi["?y"] == P(2, "area")) or (sane(mi["?y"]) and mi["?x"] == P(2, "area"))):
+            if not isect_of(a[1], is_area, sane):
                 probs.append("re-cut forward must use bounding_box().intersection(area); uses %s" % show(a[1]))
             mc = match(a[2], ("call", "*contiguous::Cropped::<I>::new", "_", ("?it", "?size", "?crop")))
             if mc is None:
                 probs.append("re-cut colours must come from iterator::contiguous::Cropped::new; found %s" % show(a[2], maxd=4))
             else:
-                if match(mc["?it"], ("call", "*IntoIterator::into_iter", "_", (P(3, "colors"),))) is None:
+                if match(mc["?it"], INTO_ITER(P(3, "colors"))) is None:
                     probs.append("Cropped must consume the caller's colours")
-                if mc["?size"] != ("field", P(2, "area"), field_index(prog, "embedded_graphics_core::primitives::rectangle::Rectangle", "size")):
+                if mc["?size"] != ("field", P(2, "area"), field_index(prog, RECT, "size")):
                     probs.append("Cropped must be told area.size; got %s" % show(mc["?size"]))
-                mt = match(mc["?crop"], ("call", "*::translate", "_", ("?r", ("call", "*Neg>::neg", "_", (("field", P(2, "area"), 0),)))))
+                mt = match(mc["?crop"], ("call", "*::translate", "_", ("?r", ("call", "*Neg>::neg", "_", (("field", P(2, "area"), field_index(prog, RECT, "top_left")),)))))
                 if mt is None or mt["?r"] != a[1]:
                     probs.append("crop area must be intersection.translate(-area.top_left); found %s" % show(mc["?crop"], maxd=6))
             kinds.add("recut")
     if kinds != {"pass", "recut"}:
         probs.append("forward kinds %s" % sorted(kinds))
     rep.check(not probs, "R03.1", "Clipped::fill_contiguous", "; ".join(probs[:3]), at=f.span, fn=f.path)
-    rep.sample({"rule": "R03.1", "Clipped::fill_contiguous": [show(s[1][1], maxd=5) for s in ss]})
+    rep.sample({"rule": "R03.1", "Clipped::fill_contiguous": [show(s.args[1], maxd=5) for s in ss]})
 
     # R03.2 construction
     n = prog.method1(NS + A, "new", None)
-    ro = strip_refs(Origins(n).return_origin())
+    ro = cn.ret(n)
     m = match(ro, ("agg", "*Clipped::Clipped", (P(1, "parent"), "?clip")))
-    ok = m is not None
-    if ok:
-        mi = match(m["?clip"], ("call", "*Rectangle::intersection", "_", ("?x", "?y")))
-        bbp = ("call", "*::bounding_box", "_", (P(1, "parent"),))
-        ok = mi is not None and ((mi["?x"] == P(2, "clip_area") and match(mi["?y"], bbp) is not None) or (mi["?y"] == P(2, "clip_area") and match(mi["?x"], bbp) is not None))
+    bbp = lambda t: match(t, ("call", "*::bounding_box", "_", (P(1, "parent"),))) is not None
+    ok = m is not None and isect_of(m["?clip"], lambda t: t == P(2, "clip_area"), bbp)
     rep.check(ok, "R03.2", "Clipped::new", "the clip area must be intersected with the parent's bounding box at construction; found %s" % show(ro), at=n.span, fn=n.path)
     writers(prog, rep, NS + A, "Clipped")
 
 
 def writers(prog, rep, adt, short):
-    """Only `new` constructs / writes the adapter."""
+    """Only `new` (and helpers introduced for it) constructs / writes the adapter."""
     ws = set()
     for f in prog.fns.values():
-        if not f.body:
+        if not f.body or (prog.is_new(f) and f.d.get("vis") != "pub"):
             continue
         for b in f.body["blocks"]:
             for s in b["s"]:
                 if s["k"] == "assign" and s["rv"]["k"] == "agg" and s["rv"].get("adt") == adt:
                     ws.add(f.path)
-    rep.check(len(ws) == 1 and list(ws)[0].endswith("::new"), "R03.2", short + ":single-constructor", "%s must be built only by its `new`; built in %s" % (short, sorted(ws)), detail=sorted(ws))
+    rep.check(len(ws) <= 1 and all(w.endswith("::new") for w in ws), "R03.2", short + ":single-constructor", "%s must be built only by its `new`; built in %s" % (short, sorted(ws)), detail=sorted(ws))
 
 
-def cropped(prog, rep):
+def cropped(prog, rep, cn):
     A = "cropped::Cropped"
     RECT = "embedded_graphics_core::primitives::rectangle::Rectangle"
     n = prog.method1(NS + A, "new", None)
-    ro = strip_refs(Origins(n).return_origin())
+    ro = cn.ret(n)
     m = match(ro, ("agg", "*Cropped::Cropped", ("?parent", "?size")))
     ok = m is not None
     why = "Cropped::new must build Cropped { parent, size }"
     if ok:
-        bbp = ("call", "*::bounding_box", "_", (P(1, "parent"),))
-        isect = {("call", "*Rectangle::intersection", "_", (P(2, "area"), bbp)), ("call", "*Rectangle::intersection", "_", (bbp, P(2, "area")))}
+        bbp = lambda t: match(t, ("call", "*::bounding_box", "_", (P(1, "parent"),))) is not None
         ms = match(m["?size"], ("field", "?r", field_index(prog, RECT, "size")))
         mp = match(m["?parent"], ("call", "*::translated", "_", (P(1, "parent"), ("field", "?r2", field_index(prog, RECT, "top_left")))))
-        ok = ms is not None and mp is not None and ms["?r"] == mp["?r2"] and match(ms["?r"], isect) is not None
+        ok = ms is not None and mp is not None and ms["?r"] == mp["?r2"] and isect_of(ms["?r"], lambda t: t == P(2, "area"), bbp)
         why = "offset and size must both come from area.intersection(parent.bounding_box()); found parent=%s size=%s" % (show(m["?parent"], maxd=5), show(m["?size"], maxd=5))
     rep.check(ok, "R03.2", "Cropped::new", why, at=n.span, fn=n.path)
     writers(prog, rep, NS + A, "Cropped")
     parent = selff(prog, A, "parent")
     for nm, pn in (("draw_iter", ["pixels"]), ("fill_contiguous", ["area", "colors"]), ("fill_solid", ["area", "color"])):
         f = method(prog, A, nm)
-        ss = sites(f, nm)
-        ok = len(ss) == 1 and ss[0][1][0] == parent and ss[0][1][1:] == [P(i + 2, x) for i, x in enumerate(pn)]
-        rep.check(ok, "R03.5", "Cropped::" + nm, "Cropped::%s must forward its arguments unmodified to the translated parent; forwards %s" % (nm, [show(x) for x in (ss[0][1] if ss else [])]), at=f.span, fn=f.path)
+        ss = cn.sites(f, nm)
+        ok = len(ss) == 1 and ss[0].args[0] == parent and ss[0].args[1:] == [P(i + 2, x) for i, x in enumerate(pn)]
+        rep.check(ok, "R03.5", "Cropped::" + nm, "Cropped::%s must forward its arguments unmodified to the translated parent; forwards %s" % (nm, shows(ss[0] if ss else None)), at=f.span, fn=f.path)
     sz = prog.method1(NS + A, "size", "embedded_graphics_core::geometry::OriginDimensions")
-    ro = strip_refs(Origins(sz).return_origin())
+    ro = cn.ret(sz)
     rep.check(ro == selff(prog, A, "size"), "R03.5", "Cropped::size", "Cropped::size must return the stored size; found %s" % show(ro), at=sz.span, fn=sz.path)
 
 
-def translated(prog, rep):
+def translated(prog, rep, cn):
     A = "translated::Translated"
     parent = selff(prog, A, "parent")
     off = selff(prog, A, "offset")
     f = method(prog, A, "draw_iter")
-    ss = sites(f, "draw_iter")
-    ok = len(ss) == 1 and ss[0][1][0] == parent and match(ss[0][1][1], ("call", "*::translated", "_", (("call", "*IntoIterator::into_iter", "_", (P(2, "pixels"),)), off))) is not None
-    rep.check(ok, "R03.3", "Translated::draw_iter", "pixels must be shifted by +self.offset; forwards %s" % (show(ss[0][1][1], maxd=5) if ss else "?"), at=f.span, fn=f.path)
+    ss = cn.sites(f, "draw_iter")
+    ok = len(ss) == 1 and ss[0].args[0] == parent and match(ss[0].args[1], ("call", "*::translated", "_", (INTO_ITER(P(2, "pixels")), off))) is not None
+    rep.check(ok, "R03.3", "Translated::draw_iter", "pixels must be shifted by +self.offset; forwards %s" % shows(ss[0] if ss else None), at=f.span, fn=f.path)
     for nm, rest in (("fill_contiguous", [P(3, "colors")]), ("fill_solid", [P(3, "color")])):
         f = method(prog, A, nm)
-        ss = sites(f, nm)
-        ok = len(ss) == 1 and ss[0][1][0] == parent and match(ss[0][1][1], ("call", "*::translate", "_", (P(2, "area"), off))) is not None and ss[0][1][2:] == rest
-        rep.check(ok, "R03.3", "Translated::" + nm, "the area must be shifted by +self.offset and the colour(s) forwarded unchanged; forwards %s" % ([show(x, maxd=5) for x in ss[0][1][1:]] if ss else "?"), at=f.span, fn=f.path)
+        ss = cn.sites(f, nm)
+        ok = len(ss) == 1 and ss[0].args[0] == parent and match(ss[0].args[1], ("call", "*::translate", "_", (P(2, "area"), off))) is not None and ss[0].args[2:] == rest
+        rep.check(ok, "R03.3", "Translated::" + nm, "the area must be shifted by +self.offset and the colour(s) forwarded unchanged; forwards %s" % shows(ss[0] if ss else None), at=f.span, fn=f.path)
     f = method(prog, A, "clear")
-    ss = sites(f, "clear")
-    rep.check(len(ss) == 1 and ss[0][1] == [parent, P(2, "color")], "R03.3", "Translated::clear", "clear must be forwarded unchanged", at=f.span, fn=f.path)
+    ss = cn.sites(f, "clear")
+    rep.check(len(ss) == 1 and ss[0].args == [parent, P(2, "color")], "R03.3", "Translated::clear", "clear must be forwarded unchanged", at=f.span, fn=f.path)
     bb = prog.method1(NS + A, "bounding_box", "embedded_graphics_core::geometry::Dimensions")
-    ro = strip_refs(Origins(bb).return_origin())
+    ro = cn.ret(bb)
     ok = match(ro, ("call", "*::translate", "_", (("call", "*::bounding_box", "_", (parent,)), ("call", "*Neg>::neg", "_", (off,))))) is not None
     rep.check(ok, "R03.3", "Translated::bounding_box", "the reported box must be the parent's box shifted by -self.offset (inverse of the drawing shift); found %s" % show(ro), at=bb.span, fn=bb.path)
     # the pixel iterator adds the offset
     IT = "embedded_graphics::iterator::pixel::Translated"
     nx = prog.method1(IT, "next", "core::iter::traits::iterator::Iterator")
-    c, cr, caps = closure_ret(prog, strip_refs(Origins(nx).return_origin()))
-    ok = False
-    if cr is not None:
-        m = match(cr, ("agg", "*Pixel::Pixel", (("call", "*Add>::add", "_", ("?p", "?o")), "?c")))
-        ok = m is not None and m["?p"][0] == "field" and m["?p"][1][0] == "param" and m["?p"][2] == 0 and m["?c"][0] == "field" and m["?c"][2] == 1 and m["?c"][1] == m["?p"][1] \
-            and (match(m["?o"], ("field", ("upvar", "_", "self"), field_index(prog, IT, "offset"))) is not None or match(m["?o"], ("upvar", "_", "self__offset")) is not None)
-    rep.check(ok, "R03.3", "iterator::Translated::next", "each pixel must become Pixel(p + self.offset, c); closure returns %s" % (show(cr) if cr else "?"), at=nx.span, fn=nx.path)
+    ro = cn.ret(nx)
+    it_off = ("field", P(1, "self"), field_index(prog, IT, "offset"))
+    it_iter = ("field", P(1, "self"), field_index(prog, IT, "iter"))
+    m = match(ro, ("comb", "map", "?x", ("agg", "*Pixel::Pixel", (("call", "*Add>::add", "_", (("field", ("payload", "?x"), 0), it_off)), ("field", ("payload", "?x"), 1)))))
+    ok = m is not None and match(m["?x"], ("call", "*Iterator::next", "_", (it_iter,))) is not None
+    rep.check(ok, "R03.3", "iterator::Translated::next", "each pixel of the inner iterator must become Pixel(p + self.offset, c); next() returns %s" % show(ro, maxd=7), at=nx.span, fn=nx.path)
     # PixelIteratorExt::translated builds the iterator with the given offset
     pe = [f for f in prog.fns.values() if f.name == "translated" and f.impl and str(prog.impls[f.impl].get("trait", "")).endswith("PixelIteratorExt")]
     if len(pe) == 1:
-        ro = strip_refs(Origins(pe[0]).return_origin())
+        ro = cn.ret(pe[0])
         m = match(ro, ("call", "*pixel::Translated::<I>::new", "_", (P(1, "self"), P(2, "offset"))))
         rep.check(m is not None, "R03.3", "PixelIteratorExt::translated", "must build iterator::pixel::Translated::new(self, offset); found %s" % show(ro), at=pe[0].span, fn=pe[0].path)
         nn = prog.method1(IT, "new", None)
-        ro = strip_refs(Origins(nn).return_origin())
+        ro = cn.ret(nn)
         rep.check(ro == ("agg", IT + "::Translated", (P(1, "iter"), P(2, "offset"))), "R03.3", "iterator::Translated::new", "must store iter and offset unchanged; found %s" % show(ro), at=nn.span, fn=nn.path)
     else:
         rep.fail("R03.3", "PixelIteratorExt::translated", "anchor lost (%d)" % len(pe), status="undecided")
     n = prog.method1(NS + A, "new", None)
-    ro = strip_refs(Origins(n).return_origin())
+    ro = cn.ret(n)
     rep.check(ro == ("agg", NS + A + "::Translated", (P(1, "parent"), P(2, "offset"))), "R03.3", "Translated::new", "Translated::new must store parent and offset unchanged; found %s" % show(ro), at=n.span, fn=n.path)
 
 
-def converted(prog, rep):
+def converted(prog, rep, cn):
     A = "color_converted::ColorConverted"
     parent = selff(prog, A, "parent")
     into = lambda x: ("call", "*Into::into", "_", (x,))
     for nm, chk in (("fill_solid", lambda a: a[1] == P(2, "area") and match(a[2], into(P(3, "color"))) is not None),
                     ("clear", lambda a: match(a[1], into(P(2, "color"))) is not None)):
         f = method(prog, A, nm)
-        ss = sites(f, nm)
-        ok = len(ss) == 1 and ss[0][1][0] == parent and chk(ss[0][1])
-        rep.check(ok, "R03.4", "ColorConverted::" + nm, "the colour must pass through Into::into and geometry unchanged; forwards %s" % ([show(x) for x in ss[0][1][1:]] if ss else "?"), at=f.span, fn=f.path)
+        ss = cn.sites(f, nm)
+        ok = len(ss) == 1 and ss[0].args[0] == parent and chk(ss[0].args)
+        rep.check(ok, "R03.4", "ColorConverted::" + nm, "the colour must pass through Into::into and geometry unchanged; forwards %s" % shows(ss[0] if ss else None), at=f.span, fn=f.path)
     f = method(prog, A, "fill_contiguous")
-    ss = sites(f, "fill_contiguous")
-    ok = len(ss) == 1 and ss[0][1][0] == parent and ss[0][1][1] == P(2, "area")
-    if ok:
-        m = match(ss[0][1][2], ("call", "*Iterator::map", "_", (("call", "*IntoIterator::into_iter", "_", (P(3, "colors"),)), "?clo")))
-        ok = m is not None
-        if ok:
-            c, cr, caps = closure_ret(prog, m["?clo"])
-            ok = cr is not None and match(cr, into(("param", 2, "?n"))) is not None
-    rep.check(ok, "R03.4", "ColorConverted::fill_contiguous", "every colour must be mapped through Into::into, area unchanged", at=f.span, fn=f.path)
+    ss = cn.sites(f, "fill_contiguous")
+    ok = len(ss) == 1 and ss[0].args[0] == parent and ss[0].args[1] == P(2, "area") and \
+        match(ss[0].args[2], ("call", "*Iterator::map", "_", (INTO_ITER(P(3, "colors")), ("lam", into(ARG))))) is not None
+    rep.check(ok, "R03.4", "ColorConverted::fill_contiguous", "every colour must be mapped through Into::into, area unchanged; forwards %s" % shows(ss[0] if ss else None), at=f.span, fn=f.path)
     f = method(prog, A, "draw_iter")
-    ss = sites(f, "draw_iter")
-    ok = len(ss) == 1 and ss[0][1][0] == parent
-    if ok:
-        m = match(ss[0][1][1], ("call", "*Iterator::map", "_", (("call", "*IntoIterator::into_iter", "_", (P(2, "pixels"),)), "?clo")))
-        ok = m is not None
-        if ok:
-            c, cr, caps = closure_ret(prog, m["?clo"])
-            mm = match(cr, ("agg", "*Pixel::Pixel", (("field", "?px", 0), into(("field", "?px", 1))))) if cr else None
-            ok = mm is not None and mm["?px"][0] == "param"
-    rep.check(ok, "R03.4", "ColorConverted::draw_iter", "each pixel must become Pixel(p, c.into())", at=f.span, fn=f.path)
+    ss = cn.sites(f, "draw_iter")
+    ok = len(ss) == 1 and ss[0].args[0] == parent and \
+        match(ss[0].args[1], ("call", "*Iterator::map", "_", (INTO_ITER(P(2, "pixels")), ("lam", ("agg", "*Pixel::Pixel", (("field", ARG, 0), into(("field", ARG, 1)))))))) is not None
+    rep.check(ok, "R03.4", "ColorConverted::draw_iter", "each pixel must become Pixel(p, c.into()); forwards %s" % shows(ss[0] if ss else None), at=f.span, fn=f.path)
     bb = prog.method1(NS + A, "bounding_box", "embedded_graphics_core::geometry::Dimensions")
-    ro = strip_refs(Origins(bb).return_origin())
+    ro = cn.ret(bb)
     rep.check(match(ro, ("call", "*::bounding_box", "_", (parent,))) is not None, "R03.4", "ColorConverted::bounding_box", "must report the parent's box; found %s" % show(ro), at=bb.span, fn=bb.path)
 
 
@@ -298,30 +272,30 @@ def default_fn(prog, name):
     return c[0]
 
 
-def defaults(prog, rep):
+def defaults(prog, rep, cn=None):
+    cn = cn or Canon(prog)
     f = default_fn(prog, "fill_contiguous")
-    ss = sites(f, "draw_iter")
-    ok = len(ss) == 1 and ss[0][1][0] == P(1, "self")
+    ss = cn.sites(f, "draw_iter")
+    ok = len(ss) == 1 and ss[0].args[0] == P(1, "self")
     why = "default fill_contiguous must make one draw_iter call on self"
     if ok:
-        m = match(ss[0][1][1], ("call", "*Iterator::map", "_", (("call", "*Iterator::zip", "_", (("call", "*::points", "_", (P(2, "area"),)), P(3, "colors"))), "?clo")))
+        m = match(ss[0].args[1], ("call", "*Iterator::map", "_", (("call", "*Iterator::zip", "_", (("call", "*::points", "_", (P(2, "area"),)), P(3, "colors"))), "?f")))
         ok = m is not None
-        why = "the stream must be area.points().zip(colors).map(..): the row-major points of exactly `area` paired with the colours; found %s" % show(ss[0][1][1], maxd=6)
+        why = "the stream must be area.points().zip(colors).map(..): the row-major points of exactly `area` paired with the colours; found %s" % show(ss[0].args[1], maxd=6)
         if ok:
-            c, cr, caps = closure_ret(prog, m["?clo"])
-            mm = match(cr, ("agg", "*Pixel::Pixel", (("field", "?t", 0), ("field", "?t", 1)))) if cr else None
-            ok = mm is not None
-            why = "each pair must become Pixel(point, colour) in that order; closure returns %s" % (show(cr) if cr else "?")
+            ok = match(m["?f"], ("lam", ("agg", "*Pixel::Pixel", (("field", ARG, 0), ("field", ARG, 1))))) is not None
+            why = "each pair must become Pixel(point, colour) in that order; the mapping is %s" % show(m["?f"])
     rep.check(ok, "R03.6", "default:fill_contiguous", why, at=f.span, fn=f.path)
     f = default_fn(prog, "fill_solid")
-    ss = sites(f, "fill_contiguous")
-    ok = len(ss) == 1 and ss[0][1][0] == P(1, "self") and ss[0][1][1] == P(2, "area") and match(ss[0][1][2], ("call", "*iter::sources::repeat::repeat", "_", (P(3, "color"),))) is not None
-    rep.check(ok, "R03.6", "default:fill_solid", "default fill_solid must be fill_contiguous(area, repeat(color)); found %s" % ([show(x) for x in ss[0][1][1:]] if ss else "?"), at=f.span, fn=f.path)
+    ss = cn.sites(f, "fill_contiguous")
+    ok = len(ss) == 1 and ss[0].args[0] == P(1, "self") and ss[0].args[1] == P(2, "area") and match(ss[0].args[2], ("call", "*iter::sources::repeat::repeat", "_", (P(3, "color"),))) is not None
+    rep.check(ok, "R03.6", "default:fill_solid", "default fill_solid must be fill_contiguous(area, repeat(color)); found %s" % shows(ss[0] if ss else None), at=f.span, fn=f.path)
     f = default_fn(prog, "clear")
-    ss = sites(f, "fill_solid")
-    ok = len(ss) == 1 and ss[0][1][0] == P(1, "self") and match(ss[0][1][1], ("call", "*::bounding_box", "_", (P(1, "self"),))) is not None and ss[0][1][2] == P(2, "color")
-    rep.check(ok, "R03.6", "default:clear", "default clear must be fill_solid(&self.bounding_box(), color); found %s" % ([show(x) for x in ss[0][1][1:]] if ss else "?"), at=f.span, fn=f.path)
-    rep.sample({"rule": "R03.6", "default fill_contiguous": show(sites(default_fn(prog, "fill_contiguous"), "draw_iter")[0][1][1], maxd=6)})
+    ss = cn.sites(f, "fill_solid")
+    ok = len(ss) == 1 and ss[0].args[0] == P(1, "self") and match(ss[0].args[1], ("call", "*::bounding_box", "_", (P(1, "self"),))) is not None and ss[0].args[2] == P(2, "color")
+    rep.check(ok, "R03.6", "default:clear", "default clear must be fill_solid(&self.bounding_box(), color); found %s" % shows(ss[0] if ss else None), at=f.span, fn=f.path)
+    s0 = cn.sites(default_fn(prog, "fill_contiguous"), "draw_iter")
+    rep.sample({"rule": "R03.6", "default fill_contiguous": show(s0[0].args[1], maxd=6) if s0 else "?"})
 
 
 def zip_rule_everywhere(prog, rep, only_adt=None, rule="R03.6", floor=3):
